@@ -38,6 +38,10 @@ def gen(tier, seed):
                     c['edges'] = keep
                 if not GC.components_fixed(c):
                     continue
+                if len(groups) % 7 == 3:
+                    # the fixed subset is the WHOLE vertex set: nothing moves, and the report states the chi^2 of that configuration
+                    for v in c['verts']:
+                        v['fixed'] = True
                 if rnd.random() < 0.5:
                     c, _ = GC.permute(c, rnd)
                 # several initial guesses for the FREE vertices (fixed vertices are constants of the problem)
@@ -112,7 +116,15 @@ def check(run):
             cc = {k: v for k, v in c.items() if k not in ('grp', 'gj', 'conv')}
             sc = [1.0, 2.0 ** -30, 2.0 ** 20][(gi + 2 * c['gj']) % 3]          # a common factor of all information matrices does not move the optimum
             g = GC.build_graph(cc, random.Random(gi).choice(GC.ID_MAPS), info_scale=sc)
-            key = dict(kind=c['verts'][0]['k'], guess=['lattice', 'near', 'far'][c['gj']])
+            # Far-frame dimension: the whole graph (fixed and free vertices) sits 2^32 units from the origin (geocentric / UTM coordinates in mm).
+            # The problem is translation invariant: the optimum moves along exactly; accuracy is then limited by the ulp of the coordinates.
+            shift = np.zeros(len(cc['verts'][0]['t']))
+            if gi % 3 != 0 and c['gj'] in (0, 1):
+                shift = np.array([2.0 ** 32, -(2.0 ** 32), 2.0 ** 31][:len(shift)])
+                for v in g._vertices:
+                    v.pose = type(v.pose)(np.asarray(v.pose, dtype=float) + shift)
+                topo['far_frame'] = topo.get('far_frame', 0) + 1
+            key = dict(kind=c['verts'][0]['k'], guess=['lattice', 'near', 'far'][c['gj']], far_frame=bool(shift.any()))
             hist = ['none', 'two-calls', 'shared-initial-object'][(gi + c['gj']) % 3]
             fxd = [bool(v['fixed']) or (c['fixFirst'] and j == 0) for j, v in enumerate(cc['verts'])]
             free_v = [v for v, f in zip(g._vertices, fxd) if not f]
@@ -154,10 +166,12 @@ def check(run):
             except Exception as ex:  # noqa
                 run.violation(dict(key, outcome='raised'), 'optimize raised %r | case %r' % (ex, cc), dict(case=cc))
                 continue
-            got = np.concatenate([np.asarray(v.pose, dtype=float) for v in g._vertices])
+            got = np.concatenate([np.asarray(v.pose, dtype=float) - shift for v in g._vertices])
             want = np.array([float(y) for y in x])
             scale = 1.0 + float(np.max(np.abs(np.concatenate([want, np.array([float(t) for v in c['verts'] for t in v['t']])]))))
             tol = 1e-9 * scale * max(1.0, cond * 1e-2)
+            if shift.any():
+                tol = 256 * np.finfo(float).eps * 2.0 ** 32 * max(1.0, cond)          # (a few hundred ulp of the coordinates, times the conditioning)
             dv = float(np.max(np.abs(got - want)))
             run.dev(dv / scale)
             run.count(key=repr(cc), nontrivial=len(obs['free']) > 0)
@@ -166,7 +180,9 @@ def check(run):
                     dv, tol, cond, got.tolist(), want.tolist(), cc), dict(case=cc, exact_optimum=[str(y) for y in x]))
                 continue
             chif = float(chi) * sc
-            if abs(ret.final_chi2 - chif) > (1e-7 * (1.0 + abs(chif) / sc) + 1e-9 * scale ** 2) * sc:
+            if ret.final_chi2 is None or not np.isfinite(float(ret.final_chi2)) or ret.initial_chi2 is None:
+                run.violation(dict(key, outcome='final-chi2'), 'the report states initial_chi2 %r / final_chi2 %r, exact chi2 at the optimum %r | case %r' % (ret.initial_chi2, ret.final_chi2, chif, cc), dict(case=cc))
+            elif abs(ret.final_chi2 - chif) > (1e-7 * (1.0 + abs(chif) / sc) + 1e-9 * scale ** 2) * sc:
                 run.violation(dict(key, outcome='final-chi2'), 'final_chi2 %r, exact chi2 at the optimum %r | case %r' % (ret.final_chi2, chif, cc), dict(case=cc))
             if run.replayed % 19 == 1:
                 run.sample(dict(case=cc, exact_optimum=[str(y) for y in x], exact_chi2=str(chi), code_final_chi2=ret.final_chi2, code_iterations=ret.num_iterations))
